@@ -247,6 +247,12 @@ func work(a lib.Args) {
 	if a.Replay != "" {
 		var cr concReplay
 		lib.ReadReplayCase(a.Replay, &cr)
+		if cr.Phase == "stall" {
+			stallPhase(res)
+			acc.WriteShards(a.Out, "C11", nil, res.ShardSize)
+			res.Write(a.Out)
+			return
+		}
 		if cr.Phase == "ramp" {
 			var rr rampReplay
 			lib.ReadReplayCase(a.Replay, &rr)
@@ -263,6 +269,32 @@ func work(a lib.Args) {
 		}
 		var c acc.Case
 		lib.ReadReplayCase(a.Replay, &c)
+		if c.Mode == "real" { // a whole-relay history: re-run it on a fresh relay, clock readings re-recorded
+			acc.UseWallClock(true)
+			real := acc.StartRealRelay(c.Cfg.AE)
+			var ops []acc.Op
+			for _, o := range c.Ops {
+				if o.K != "setnow" {
+					ops = append(ops, o)
+				}
+			}
+			c.Ops = ops
+			c.Rebase(real)
+			rcs := []acc.Case{c}
+			runRelayCases(real, rcs)
+			oracleHist(rcs[0], 0, res)
+			var idx []string
+			for j, o := range rcs[0].Ops {
+				if o.K == "req" || o.K == "ws" {
+					idx = append(idx, lib.N(uint64(j)))
+				}
+			}
+			res.Cases = append(res.Cases, rcs[0])
+			res.Evaluations = 1
+			acc.WriteShards(a.Out, "C11", []string{lib.Tuple(rcs[0].Coq(), lib.List(idx))}, res.ShardSize)
+			res.Write(a.Out)
+			return
+		}
 		c.Rebase(envs[c.Cfg.AE])
 		cases = []acc.Case{c}
 		st := []int{}
@@ -403,6 +435,28 @@ func work(a lib.Args) {
 		}
 	}
 
+	if a.Replay == "" {
+		// (13) the request-header dimension on the access API itself: forwarding, correlation and timing headers in
+		// every shape on otherwise valid requests - none of them may change the answer
+		for i, hs := range acc.UpgradeHeaderSets() {
+			if hs == nil {
+				continue
+			}
+			r := rng.Fork()
+			e := envs[r.Bool()]
+			now := int64(1600000000 + r.Intn(200000000))
+			x := baseFor(routes[i%len(routes)], e, now, n)
+			var sb strings.Builder
+			for k, vs := range hs {
+				for _, v := range vs {
+					sb.WriteString(k + ": " + v + "\r\n")
+				}
+			}
+			x.Headers = sb.String()
+			x.Label = "request-headers"
+			add(e, now, x)
+		}
+	}
 	if a.Replay == "" {
 		// (12) the JOSE header dimension x the signing-key dimension on every endpoint: kid / jku / x5c / jwk / crit /
 		// unknown members / duplicates in the header, signed with the relay secret (must succeed whatever the header
@@ -606,6 +660,42 @@ func work(a lib.Args) {
 		concurrentPhase(true, a.Pick(700, 4000), res)
 		acc.Progress(a.Out, map[string]string{"phase": "ramp"})
 		rampPhase(a.Pick(20500, 72000), a.Out, res)
+		acc.Progress(a.Out, map[string]string{"phase": "stall"})
+		stallPhase(res)
+		// whole-relay histories (wall clock from here on)
+		acc.Progress(a.Out, map[string]string{"phase": "relay"})
+		acc.UseWallClock(true)
+		real := acc.StartRealRelay(rng.Bool())
+		rcs := relayCases(real, n)
+		runRelayCases(real, rcs)
+		for k := range rcs {
+			c := rcs[k]
+			discarded := false
+			for _, t := range c.Tags {
+				if t == "discarded-clock-tick" {
+					discarded = true
+				}
+			}
+			if discarded {
+				res.Count("discarded:clock-tick")
+				continue
+			}
+			oracleHist(c, len(coq), res)
+			var idx []string
+			for j, o := range c.Ops {
+				if o.K == "req" || o.K == "ws" {
+					idx = append(idx, lib.N(uint64(j)))
+				}
+			}
+			coq = append(coq, lib.Tuple(c.Coq(), lib.List(idx)))
+			res.Cases = append(res.Cases, c)
+			res.Count("kind:relay-history")
+			for j, o := range c.Ops {
+				if o.K == "ws" {
+					res.Count("relay-ws:" + o.Ws.Label + "=" + c.Outs[j].Ws)
+				}
+			}
+		}
 	}
 	kept := coq[:0]
 	for _, t := range coq {
